@@ -1,5 +1,4 @@
 """C18 Row values survive a REST round trip (tables/rows.go, parsing/generators.go CoerceToColumnType/bindTimeValue, SQLite)."""
-import datetime
 import json
 import os
 import re
@@ -27,7 +26,6 @@ META = {
             "text are inverse on UTC instants (observed, not modelled); the overlay harness and the Python comparison.",
 }
 TWO53 = 1 << 53
-EPOCH = datetime.datetime(1970, 1, 1, tzinfo=datetime.timezone.utc)
 
 
 def gen_ints(rng, n):
@@ -63,9 +61,34 @@ def gen_instants(rng, n):
     return out
 
 
+def days_from_civil(y, m, d):
+    """days since 1970-01-01 of the proleptic Gregorian date (any year, 0 and negatives included)"""
+    y -= m <= 2
+    era = y // 400
+    yoe = y - era * 400
+    doy = (153 * (m + (-3 if m > 2 else 9)) + 2) // 5 + d - 1
+    doe = yoe * 365 + yoe // 4 - yoe // 100 + doy
+    return era * 146097 + doe - 719468
+
+
+def civil_from_days(z):
+    z += 719468
+    era = z // 146097
+    doe = z - era * 146097
+    yoe = (doe - doe // 1460 + doe // 36524 - doe // 146096) // 365
+    y = yoe + era * 400
+    doy = doe - (365 * yoe + yoe // 4 - yoe // 100)
+    mp = (5 * doy + 2) // 153
+    d = doy - (153 * mp + 2) // 5 + 1
+    m = mp + (3 if mp < 10 else -9)
+    return y + (m <= 2), m, d
+
+
 def rfc3339(sec, nano, offmin):
-    t = EPOCH + datetime.timedelta(seconds=sec + offmin * 60)
-    s = "%04d-%02d-%02dT%02d:%02d:%02d" % (t.year, t.month, t.day, t.hour, t.minute, t.second)
+    local = sec + offmin * 60
+    y, mo, d = civil_from_days(local // 86400)
+    r = local % 86400
+    s = "%04d-%02d-%02dT%02d:%02d:%02d" % (y, mo, d, r // 3600, r // 60 % 60, r % 60)
     if nano:
         s += (".%09d" % nano).rstrip("0")
     if offmin == 0:
@@ -82,8 +105,30 @@ def parse_rfc3339(text):
     off = 0
     if m.group(8) != "Z":
         off = (1 if m.group(8)[0] == "+" else -1) * (int(m.group(8)[1:3]) * 60 + int(m.group(8)[4:6]))
-    days = (datetime.date(y, mo, d) - datetime.date(1970, 1, 1)).days
-    return days * 86400 + h * 3600 + mi * 60 + s - off * 60, nano
+    return days_from_civil(y, mo, d) * 86400 + h * 3600 + mi * 60 + s - off * 60, nano
+
+
+YEAR0 = -62167219200
+
+
+def gen_dates(rng, n):
+    out = [0, 19783, -1, -719162, 2932896, days_from_civil(2024, 2, 29), days_from_civil(2000, 2, 29), days_from_civil(1900, 3, 1),
+           days_from_civil(1969, 12, 31), days_from_civil(2038, 1, 19)]
+    while len(out) < n:
+        out.append(rng.randint(-719162, 2932896))
+    return out
+
+
+def gen_tods(rng, n):
+    out = [(45045, 0), (0, 0), (86399, 0), (86399, 999999999), (45045, 500000000), (3600, 1), (43200, 0), (59, 0), (60, 0), (3599, 120000000)]
+    while len(out) < n:
+        out.append((rng.randint(0, 86399), rng.choice([0, 0, rng.randint(0, 999999999), rng.randint(0, 999) * 1000000])))
+    return out
+
+
+def tod_text(s, n):
+    t = "%02d:%02d:%02d" % (s // 3600, s // 60 % 60, s % 60)
+    return t + ((".%09d" % n).rstrip("0") if n else "")
 
 
 def run(ck):
@@ -101,7 +146,7 @@ def run(ck):
               "Go float64 -> int conversion of an out-of-range value yields -2^63 (amd64)")
     ck.trusted("harness/C18/c18_test.go (in-package overlay), props/C18.py generators, RFC 3339 rendering/parsing in Python",
                "correspondence evaluated by vm_compute in a generated cases file")
-    ck.coq_stage(GROUP, theorems=["C18_roundtrip_full", "C18_current_schema_full", "C18_roundtrip_partial", "C18_current_schema", "C18_int_refuted", "C18_int_max_refuted", "C18_old_refuted",
+    ck.coq_stage(GROUP, theorems=["C18_roundtrip_full", "C18_roundtrip_columns", "C18_current_schema_full", "C18_roundtrip_partial", "C18_current_schema", "C18_int_refuted", "C18_int_max_refuted", "C18_old_refuted",
                                    "C18_stale_schema_refuted"])
 
     ok, binp = vf.go_test_build(ck.work, "internal/server/tables",
@@ -135,9 +180,15 @@ def run(ck):
         add("float64", f, ("float", f))
     for f in ["0.5", "0.1", "16777217"]:
         add("float32", f, ("float", f))
+    dates, tods = gen_dates(ck.rng, n // 3), gen_tods(ck.rng, n // 3)
+    if ck.replay_file:
+        dates, tods = rp.get("dates", []), [tuple(x) for x in rp.get("tods", [])]
+    for d in dates:
+        add("date", "\"%04d-%02d-%02d\"" % civil_from_days(d), ("date", d))
+    for sec, nano in tods:
+        add("time", json.dumps(tod_text(sec, nano)), ("tod", sec, nano))
     if not ck.replay_file:
-        add("date", "\"2024-03-01\"", ("date", 1709251200))
-        add("time", "\"12:30:45\"", ("tod", "12:30:45"))
+        add("time", "\"12:30\"", ("tod", 45000, 0))
         add("time", "\"2024-03-01T12:30:45Z\"", ("ts", 1709296245, 0, 0))
 
     inp, outp = os.path.join(ck.work, "in.json"), os.path.join(ck.work, "out.json")
@@ -193,7 +244,7 @@ def run(ck):
 
     # ---- property oracle on the real handlers
     nontriv, dist = set(), {}
-    int_pairs, ts_rows = [], []
+    int_pairs, ts_rows, dt_rows = [], [], []
     def judge(c, o, chain_replay=None):
         meta = c["meta"]
 
@@ -251,12 +302,18 @@ def run(ck):
                 report("float32-roundtrip", "float32 column: wrote %s, read back %s" % (meta[1], o["back"]), replay={"log": str(c)})
         elif meta[0] == "date":
             got = parse_rfc3339(back) if isinstance(back, str) else None
-            if got != (meta[1], 0):
-                report("date-roundtrip", "date column: wrote %s, read back %s" % (c["value"], o["back"]), replay={"log": str(c)})
+            if chain_replay is None:
+                dt_rows.append((0, meta[1], 0, got))
+            if got != (meta[1] * 86400, 0):
+                report("date-roundtrip", "date column: wrote %s (day %d), read back %s" % (c["value"], meta[1], o["back"] or "nothing"),
+                       replay={"dates": [meta[1]]})
         elif meta[0] == "tod":
-            if not (isinstance(back, str) and meta[1] in back):
+            got = parse_rfc3339(back) if isinstance(back, str) else None
+            if chain_replay is None:
+                dt_rows.append((1, meta[1], meta[2], got))
+            if got != (YEAR0 + meta[1], meta[2]):
                 report("time-of-day-misparsed", "time column: wrote %s, read back %s (stored cell %s)" % (
-                    c["value"], o["back"] or "nothing", o["stored"]), replay={"log": str(c)})
+                    c["value"], o["back"] or "nothing", o["stored"]), replay={"tods": [[meta[1], meta[2]]]})
 
     for c in cases:
         judge(c, outs[c["id"]])
@@ -337,9 +394,17 @@ def run(ck):
                "| _, _ => false end.")
     pre.append("Fixpoint bad_chains (p : bool) (l : list (list top * list Z)) (i : nat) : list nat := match l with [] => [] | (h, w) :: r => "
                "if zl_eqb (chain_reads p tinit None h) w then bad_chains p r (S i) else i :: bad_chains p r (S i) end.")
+    dp = [(k, a, b, g) for k, a, b, g in dt_rows if g is not None]
+    pre.append("Definition dcases : list (Z * Z * Z * (Z * Z)) := [%s]." % ";".join(
+        "(%d,(%d),%d,((%d),%d))" % (k, a, b, g[0], g[1]) for k, a, b, g in dp))
+    pre.append("Definition bad_dt (i : nat) (c : Z * Z * Z * (Z * Z)) : list nat := let '(k, a, b, (ws, wn)) := c in "
+               "let v := if k =? 0 then CVDate a else CVTod a b in "
+               "match instant_of v with Ok i0 => match roundtrip_n true true TTs i0, roundtrip_col (if k =? 0 then ColDate else ColTime) v with "
+               "| Ok (VTs s n), Ok v' => if (s =? ws) && (n =? wn) then [] else [i] | _, _ => [i] end | Rejected => [i] end.")
+    pre.append("Fixpoint idxd (i : nat) (l : list (Z * Z * Z * (Z * Z))) : list nat := match l with [] => [] | x :: r => bad_dt i x ++ idxd (S i) r end.")
     ok, res = vf.coq_eval(GROUP, ck.work, "cases", "\n".join(pre),
                           {"ints": "bad_ints_n true icases 0", "intsold": "bad_ints icases 0", "ts": "bad_ts true tcases 0", "tsold": "bad_ts false tcases 0",
-                           "chains": "bad_chains true chains 0", "chainsold": "bad_chains false chains 0"})
+                           "chains": "bad_chains true chains 0", "dt": "idxd 0 dcases", "chainsold": "bad_chains false chains 0"})
     if not ok:
         ck.violation("correspondence-eval", "model evaluation failed:\n" + res[-1500:], replay={"log": res[-3000:]}, found_input=False)
         return
@@ -354,6 +419,12 @@ def run(ck):
             ck.violation("corr-chain", "model and implementation disagree on the chain %s: real per-step 'read back what was written' flags %s" % (
                 [(c["type"], c["value"]) for c in mchains[i][0]], mchains[i][1]),
                 replay={"chain": [[c["type"], c["value"], list(c["meta"])] for c in mchains[i][0]]}, found_input=False)
+    ck.cov["traces_validated_against_impl"] += len(dp) - len(res["dt"])
+    if not any(v["signature"] in ("date-roundtrip", "time-of-day-misparsed") for v in ck.viol):
+        for i in res["dt"]:
+            ck.violation("corr-date-time", "model and implementation disagree on the %s value %s: real instant read back %s" % (
+                "time-of-day" if dp[i][0] else "date", dp[i][1:3], dp[i][3]),
+                replay={"tods": [[dp[i][1], dp[i][2]]]} if dp[i][0] else {"dates": [dp[i][1]]}, found_input=False)
     for i in res["ints"]:
         ck.violation("corr-int", "model and implementation disagree on int %d: real read back %d" % ip[i], replay={"ints": [ip[i][0]]},
                      found_input=False)
